@@ -138,9 +138,12 @@ func (fs *MemFs) ReadAt(f File, offset uint64, length uint64) []byte {
 	if offset >= uint64(len(data)) {
 		return nil
 	}
-	// copy:
-	// (1) makes the returned data independent
-	// (2) automatically truncates to the smaller buffer
+	// the buffer need not be larger than what exists from offset on (length
+	// can be anything up to 2^64-1)
+	if length > uint64(len(data))-offset {
+		length = uint64(len(data)) - offset
+	}
+	// copy makes the returned data independent
 	p := make([]byte, length)
 	n := copy(p, data[offset:])
 	return p[:n]
